@@ -51,7 +51,8 @@ def cases(tier, seed):
                             dict(seed=seed, bg=S.bg_for(setup), probes=[list(st_loc)], cfg=S.cfg_for(setup, agg, policy, thr))
                         )
     # k = 2
-    pairs = S.multisets(types, 2)
+    ptypes = types if tier == "thorough" else [t for t in types if t[0] not in ("tf_below", "tf_at_lower", "tf_above")]
+    pairs = S.multisets(ptypes, 2)
     for i, pr in enumerate(pairs):
         combos = [("np1", "all", "drop", 100), ("np1", "cf_pc", "zero", 50)]
         if tier == "thorough":
